@@ -54,6 +54,7 @@ struct Config {
   int level = 0, mode = 0;
   double e1 = -1, e2 = -1; // window (MeV); a negative bound is absent (one-sided window: the other side defaults to 0 / 4.3)
   std::string pre;         // key of a predecessor configuration initialised first on the same objects (dx)
+  std::string pre_raw;     // its text "cat name level mode e1 e2" (replay files)
   std::string hist;        // raw text "cat name forced [START forced]" of a history shot on another working set before every port shot (dx)
   bool dbd() const { return cat == "dbd"; }
   bool window() const { return e1 >= 0 || e2 >= 0; }
@@ -131,6 +132,7 @@ struct RefSide {
     vx::Source s;
     s.forced = &none;
     s.phase = phase ^ 0x5bd1e995ULL;
+    s.squeeze = false;
     d0ref::mon.reset();
     d0ref::mon.source = ref_source;
     d0ref::mon.ctx = &s;
@@ -269,6 +271,7 @@ struct PortSide {
     PortRand r;
     r.s.forced = &none;
     r.s.phase = phase ^ 0x5bd1e995ULL;
+    r.s.squeeze = false;
     r.horizon = 2000000;
     int err = 0;
     try {
